@@ -104,6 +104,21 @@ def slice(ctx: fw.Ctx) -> fw.Outcome:
                 dumps.append(impl.err_name(ex))
         rp = {"op": "reuse", "text": R.text, "want": sel}
         out.case(fw.h(["reuse", R.text, sel]), True, None, tags=["reuse-selection"])
+        # the track map holds the selected tracks and nothing else: no entry (not even an empty one) for an instrument none of whose
+        # tracks was selected, so subscripting by it raises KeyError
+        for sel2 in ([], sel[:1], [(rng.randrange(10), rng.randrange(4))]):
+            try:
+                c2 = Chart.from_file(io.StringIO(R.text, newline=""), want_tracks=impl.want_arg(sel2))
+            except Exception:  # noqa: BLE001
+                continue
+            ins_, dif_ = impl.enums()
+            want_keys = sorted({i for i, d in present if (i, d) in [tuple(x) for x in sel2]})
+            got_keys = sorted(ins_.index(k) for k in c2.instrument_tracks.keys())
+            empties = [ins_.index(k) for k, v in c2.instrument_tracks.items() if not v]
+            if got_keys != want_keys or empties:
+                out.violation("keys-" + fw.h([R.text, sel2]), f"selection {sel2}: the track map has entries for instruments {got_keys} (empty: {empties}), selected and present: {want_keys}",
+                              {"op": "keys", "text": R.text, "want": sel2, "keys": want_keys}, observed=got_keys, promised=want_keys)
+                break
         if list(w) != before:
             out.violation("reuse-" + fw.h(rp), f"parsing with want_tracks={sel} changed the caller's list to {len(w)} entries", rp,
                           observed=len(w), promised=len(before))
@@ -212,6 +227,13 @@ def replay(ctx, data):
             except Exception as ex:  # noqa: BLE001
                 dumps.append(impl.err_name(ex))
         return list(w) != before or len(set(dumps)) != 1, f"list {len(before)} -> {len(w)}; distinct results {len(set(dumps))}"
+    if data["op"] == "keys":
+        from chartparse.chart import Chart
+        import io
+        c2 = Chart.from_file(io.StringIO(data["text"], newline=""), want_tracks=impl.want_arg(data["want"]))
+        ins_, _ = impl.enums()
+        got = sorted(ins_.index(k) for k in c2.instrument_tracks.keys())
+        return got != data["keys"] or any(not v for v in c2.instrument_tracks.values()), str(got)
     x = impl.run_chart(data["text"], data.get("want"))
     if data["op"] == "clones":
         if x.startswith("E "):
